@@ -121,6 +121,11 @@ class Ctx:
             out.append(v)
         return SStr(out)
 
+    def float(self, name, lo, hi, lo_open=False):
+        from . import fp
+
+        return fp.fresh(self, name, lo, hi, lo_open)
+
     def assume(self, cond):
         if isinstance(cond, SBool):
             cond = cond.e
@@ -237,6 +242,11 @@ class Ctx:
             x = model.eval(v, model_completion=True)
             if z3.is_int_value(x):
                 out[name] = x.as_long()
+            elif z3.is_fp(x):
+                try:
+                    out[name] = float(eval(str(z3.simplify(z3.fpToReal(x))).replace("?", ""))) if False else _fp_to_py(x)
+                except Exception:  # noqa: BLE001
+                    out[name] = str(x)
             else:
                 out[name] = bool(z3.is_true(x))
         return out
@@ -275,6 +285,9 @@ class ConcreteCtx:
 
     def str(self, name, n, domain=None):
         return "".join(chr(int(self.w.get(f"{name}[{i}]", 0))) for i in range(n))
+
+    def float(self, name, lo, hi, lo_open=False):
+        return float(self.w.get(name, lo))
 
     def assume(self, cond):
         if not cond:
@@ -805,6 +818,18 @@ def _xor_terms(e):
     if r is not None:
         return r[0], r[1]
     return 0, {e.get_id(): e}
+
+
+def _fp_to_py(x):
+    """z3 FPNumRef -> python float (exact)"""
+    import struct as _st
+
+    if x.isNaN():
+        return float("nan")
+    if x.isInf():
+        return float("-inf") if x.isNegative() else float("inf")
+    bv = z3.simplify(z3.fpToIEEEBV(x))
+    return _st.unpack(">d", bv.as_long().to_bytes(8, "big"))[0]
 
 
 def is_sym(x):
